@@ -20,12 +20,13 @@ Record lframe (c c' : N) (E : env) (st : state) (E' : env) (st' : state) : Prop 
   lf_new : forall x p, sget x E' = Some p -> sget x E = Some p \/ in_rng c c' x;
   lf_cells : forall x p, sget x E = Some p -> ~ in_rng c c' x -> get_cell st' p = get_cell st p;
   lf_tabs : s_tabs st' = s_tabs st;
+  lf_ncell : (s_ncell st <= s_ncell st')%positive;
   lf_wf : wfenv E' st';
   lf_linv : linv st'
 }.
 
 Lemma lframe_refl c c' E st : wfenv E st -> linv st -> lframe c c' E st E st.
-Proof. intros Hwf Hl. constructor; auto. apply env_incl_refl. Qed.
+Proof. intros Hwf Hl. constructor; auto; [apply env_incl_refl | lia]. Qed.
 
 Lemma in_rng_widen a b a' b' x : in_rng a b x -> a' <= a -> b <= b' -> in_rng a' b' x.
 Proof. intros (t & -> & H) H1 H2. exists t. split; [reflexivity | lia]. Qed.
@@ -33,7 +34,7 @@ Proof. intros (t & -> & H) H1 H2. exists t. split; [reflexivity | lia]. Qed.
 Lemma lframe_widen a b a' b' E st E' st' :
   lframe a b E st E' st' -> a' <= a -> b <= b' -> lframe a' b' E st E' st'.
 Proof.
-  intros [Hi Hn Hc Ht Hw Hl] H1 H2. constructor; auto.
+  intros [Hi Hn Hc Ht Hnc Hw Hl] H1 H2. constructor; auto.
   - intros x p H. destruct (Hn x p H) as [H'|H']; [left; exact H' | right; eapply in_rng_widen; eassumption].
   - intros x p H Hr. apply (Hc x p H). intros Hr'. apply Hr. eapply in_rng_widen; eassumption.
 Qed.
@@ -41,11 +42,12 @@ Qed.
 Lemma lframe_trans c c' E1 s1 E2 s2 E3 s3 :
   lframe c c' E1 s1 E2 s2 -> lframe c c' E2 s2 E3 s3 -> lframe c c' E1 s1 E3 s3.
 Proof.
-  intros [Hi Hn Hc Ht Hw Hl] [Hi' Hn' Hc' Ht' Hw' Hl']. constructor; auto.
+  intros [Hi Hn Hc Ht Hnc Hw Hl] [Hi' Hn' Hc' Ht' Hnc' Hw' Hl']. constructor; auto.
   - eapply env_incl_trans; eassumption.
   - intros x p H. destruct (Hn' x p H) as [H'|H']; [apply (Hn x p H') | right; exact H'].
   - intros x p H Hr. rewrite (Hc' x p (Hi x p H) Hr). apply (Hc x p H Hr).
   - congruence.
+  - lia.
 Qed.
 
 Lemma lframe_cells_ext c c' E st st' : wfenv E st -> linv st -> cells_ext st st' -> lframe c c' E st E st'.
@@ -54,6 +56,7 @@ Proof.
   - apply env_incl_refl.
   - auto.
   - intros x p H _. apply Hx. eapply wf_alloc; eassumption.
+  - apply Hx.
   - apply Hx.
   - eapply wfenv_ext; [exact Hwf | apply Hx].
   - eapply cells_ext_linv; eassumption.
@@ -76,6 +79,7 @@ Proof.
     + left. rewrite sget_sset_other in H by exact Hne. exact H.
   - intros x p H _. apply get_cell_alloc_old. eapply wf_alloc; eassumption.
   - reflexivity.
+  - cbn; lia.
   - apply wfenv_local. exact Hwf.
   - apply linv_alloc_cell. exact Hl.
 Qed.
@@ -90,11 +94,20 @@ Proof.
   - intros x q H Hr. apply get_cell_set_other. intros ->.
     apply Hr. exists t. split; [eapply wf_inj; eassumption | exact Ht].
   - reflexivity.
+  - cbn; lia.
   - eapply wfenv_ext; [exact Hwf | cbn; lia].
   - apply linv_set_cell. exact Hl.
 Qed.
 
 (* the frozen temporaries are temporaries, none of them numbered in [c, c') *)
+(* leaving a block: the environment is the one before the block again *)
+Lemma lframe_forget c c' E st E' st' : lframe c c' E st E' st' -> wfenv E st -> lframe c c' E st E st'.
+Proof.
+  intros [Hi Hn Hc Ht Hnc Hw Hl] Hwf. constructor; auto.
+  - apply env_incl_refl.
+  - eapply wfenv_ext; eassumption.
+Qed.
+
 Definition F_out (bound : N) (F : list N) (c c' : N) : Prop :=
   forall t, In t F -> bound <= t /\ ~ (c <= t < c').
 
